@@ -38,6 +38,11 @@ FIRST = {
     "C07-5": "missed", "C08-4": "caught (replay)", "C09-5": "missed", "C10-5": "missed", "C11-5": "missed", "C12-5": "missed",
     "C13-5": "missed", "C14-5": "caught (replay)", "C15-5": "missed", "C16-5": "missed", "C17-5": "caught (replay)", "C18-5": "missed",
     "C19-5": "translator failure, no-failing-input-found", "C20-5": "missed",
+    # round 6
+    "C01-6": "caught (replay)", "C02-6": "missed", "C03-6": "caught (replay)", "C04-6": "missed", "C05-6": "caught (replay)", "C06-6": "caught (replay)",
+    "C07-6": "caught (replay)", "C08-5": "caught (replay)", "C09-6": "refinement theorem C09_gen_default broken, no-failing-input-found", "C10-6": "missed",
+    "C11-6": "missed", "C12-6": "missed", "C13-6": "missed", "C14-6": "missed", "C15-6": "missed", "C16-6": "missed", "C17-6": "caught (replay)",
+    "C18-6": "missed", "C19-6": "missed", "C20-6": "missed",
 }
 
 
